@@ -1,0 +1,13 @@
+//go:build verif
+
+package verifhooks
+
+import (
+	"io/fs"
+
+	"oras.land/oras-go/v2/internal/fs/tarfs"
+)
+
+// NewTarFS is internal/fs/tarfs.New: the fs.FS view of a tar archive that
+// oci.NewFromTar and oci.NewStorageFromTar read through.
+func NewTarFS(path string) (fs.FS, error) { return tarfs.New(path) }
